@@ -20,3 +20,8 @@ import logging
 
 if not os.environ.get("VERIF_DEBUG"):
     logging.disable(logging.CRITICAL)
+
+import warnings
+
+if not os.environ.get("VERIF_DEBUG"):
+    warnings.filterwarnings("ignore")
